@@ -17,7 +17,7 @@ PROPERTY = "C07"
 ALPHA = ["S", "L", "H", "#", "E", "\t", " ", "A", "+", "-", "*", "0", "1", "$",
          ":", "i", "J", "{", "\n", "\r", "\x00", "\u00e9"]
 MUT_ALPHA = ["\t", " ", "*", "+", "-", "0", "9", "$", ":", ",", "A", "{", "\n",
-             "\x00", "\u00e9"]
+             "\x00", "\u00e9", "i", "Z", "\u00b2"]
 API_ALPHA = ["A", "p", "x", "1", "*", "+", " ", "\t", ":", "\u00e9"]
 GFAPY_DIR = os.path.join(os.path.realpath(REPO), "gfapy") + os.sep
 
@@ -239,6 +239,83 @@ def work_api(item):
   return res
 
 
+def extreme_cases():
+  """inputs that are extreme in size rather than in shape: very long digit
+  strings (Python's int/str conversion limit), very deep JSON nesting
+  (recursion limit), very long fields; unicode digits; predefined tags with
+  another datatype.  (entry, text, version)"""
+  big = "9" * 5000
+  deep = "[" * 100000 + "]" * 100000
+  out = []
+  for v in (big, "-" + big, big + "$", "1e" + big, "0." + big):
+    out += [("line", "S\tA\t*\txx:i:" + v, "gfa1"), ("line", "S\tA\t*\txx:f:" + v, "gfa1"),
+            ("line", "S\tA\t*\tLN:i:" + v, "gfa1"), ("line", "S\ta\t" + v + "\t*", "gfa2"),
+            ("line", "S\tA\t*\txx:B:i," + v, "gfa1"), ("line", "S\tA\t*\txx:B:f," + v, "gfa1"),
+            ("line", "C\tA\t+\tB\t+\t" + v + "\t*", "gfa1"),
+            ("line", "L\tA\t+\tB\t+\t" + v + "M", "gfa1"),
+            ("line", "E\te\ta+\tb+\t0\t" + v + "\t0\t5\t" + v + "M", "gfa2"),
+            ("line", "E\te\ta+\tb+\t0\t5\t0\t5\t1," + v, "gfa2"),
+            ("line", "G\tg\ta+\tb+\t" + v + "\t" + v, "gfa2"),
+            ("line", "S\t" + v + "\t*", "gfa1"), ("line", "S\tA\t*\txx:H:" + v, "gfa1")]
+  out += [("line", "S\tA\t*\txx:J:" + deep, "gfa1"),
+          ("line", "S\tA\t*\txx:J:" + "[" * 100000, "gfa1"),
+          ("line", "S\tA\t*\txx:J:" + '{"a":' * 50000 + "1" + "}" * 50000, "gfa1"),
+          ("line", "S\tA\t*\txx:Z:" + "x" * 200000, "gfa1"),
+          ("line", "S\tA\t" + "A" * 200000, "gfa1"),
+          ("line", "P\tp\t" + ",".join(["A+"] * 300) + "\t*", "gfa1"),
+          ("line", "O\to\t" + " ".join(["a+"] * 300), "gfa2"),
+          ("line", "S\tA\t*" + "".join("\tx{}:i:1".format(c) for c in "abcdefghij") * 1, "gfa1")]
+  for d in ("\u00b2", "\u0661", "\uff11"):
+    out += [("line", "S\t" + d + "\t*", "gfa1"), ("line", "S\t" + d + "\t4\t*", "gfa2"),
+            ("line", "S\tA\t*\txx:i:" + d, "gfa1"), ("line", "S\ta\t" + d + "\t*", "gfa2"),
+            ("line", "E\t" + d + "\ta+\tb+\t0\t" + d + "\t0\t1\t*", "gfa2"),
+            ("line", "L\tA\t+\tB\t+\t" + d + "M", "gfa1"),
+            ("line", "L\tA\t+\tB\t+\t*\tID:Z:" + d, "gfa1"),
+            ("line", "P\t" + d + "\tA+\t*", "gfa1"), ("line", "O\t" + d + "\ta+", "gfa2")]
+  vals = {"A": "x", "i": "5", "f": "1.5", "Z": "ab", "J": "[1]", "H": "1A", "B": "c,1"}
+  from ..ref import grammar
+  for version, recs in grammar.RECORDS.items():
+    lines = corpus.GFA1_LINES if version == "gfa1" else corpus.GFA2_LINES
+    for rt, (pos, pre) in recs.items():
+      base = next(l for l in lines if l.split("\t")[0] == rt).split("\t")[:1 + len(pos)]
+      for tag in list(pre) + ["VN", "TS", "ID", "LN", "SN", "SO"]:
+        for dt, v in vals.items():
+          out.append(("line", "\t".join(base + ["{}:{}:{}".format(tag, dt, v)]), version))
+  return out
+
+
+def work_extremes(chunk):
+  res = new_result()
+  found = {}
+  for entry, text, version in chunk:
+    for vlevel in (0, 1, 2, 3):
+      for ver in (None, version):
+        res["evaluations"] += 1
+        r = call(lambda: use_line(text, vlevel, ver))
+        note(res, found, r, "line", text, vlevel, ver, "standard")
+        res["evaluations"] += 1
+        r = call(lambda: use_doc(text, vlevel, ver, "standard"))
+        note(res, found, r, "doc", text, vlevel, ver, "standard")
+        # the lazily parsed / API path: set the raw value, then validate
+        def viaset():
+          f = text.split("\t")
+          l = gfapy.Line("S\tA\t*", vlevel=vlevel, version="gfa1")
+          for t in f:
+            m = t.split(":", 2)
+            if len(m) == 3 and len(m[0]) == 2 and m[1] in "AifZJHB":
+              l.set_datatype("xx", m[1])
+              l.set("xx", m[2])
+              str(l); l.validate()
+        res["evaluations"] += 1
+        r = call(viaset)
+        note(res, found, r, "line", text, vlevel, ver, "standard")
+  res["transitions"] = res["evaluations"]
+  res["states"].add("extremes:" + h([c[1][:50] + str(len(c[1])) for c in chunk]))
+  res["found"] = found
+  res["n_strings"] = len(chunk)
+  return res
+
+
 FILE_VARIANTS = [
     ("empty", b""), ("newline-only", b"\n"), ("crlf-only", b"\r\n"),
     ("no-final-newline", b"S\tA\t*"), ("final-newline", b"S\tA\t*\n"),
@@ -368,6 +445,10 @@ def run(ctx):
       at += [(version, vlevel, i) for i in range(n)]
   absorb(ctx.pmap(work_api, at, chunksize=1))
   absorb([work_files(None)])
+  ex = extreme_cases()
+  absorb(ctx.pmap(work_extremes, [ex[i:i + 8] for i in range(0, len(ex), 8)],
+                  chunksize=1))
+  ctx.extra["extreme_cases"] = len(ex)
   ctx.nontrivial.update(ctx.states)
   ctx.bound_completed = {"strings_full_configs": k_full,
                          "strings_light_configs": k_light,
